@@ -1046,6 +1046,13 @@ def gen_C13(rng, tier):
                 j = h.newi(); h.ops.append("%s=groebner %s" % (j, cur)); cur = rng.choice([cur, j])
             else:
                 j = h.newi(); h.ops.append("%s=icopy %s" % (j, cur)); cur = rng.choice([cur, j])
+        if rng.random() < 0.6:
+            # the ideal's own Reduce: the polynomial becomes its remainder, the ideal object caches at most its flag
+            for _ in range(rng.randrange(1, 4)):
+                b0 = h.bpoly(nterms=rng.choice([1, 2, 4]), box=6, ring=0)
+                h.ops.append("ireduce %s %s" % (cur, b0)); h.ops.append("obs %s" % b0)
+            h.ops.append("ireduce %s %s" % (cur, gs[0])); h.ops.append("obs %s" % gs[0])    # a generator becomes zero
+            h.ops.append("obs %s" % cur)
         h.ops.append("quotient %s" % cur)
         h.ops.append("obs %s" % cur)
         embedded = []
